@@ -27,6 +27,7 @@ import XotModel.Lemmas.SerTokensPieces
 import XotModel.Lemmas.RoundTripTokens
 import XotModel.Lemmas.RoundTripEncode
 import XotModel.Lemmas.RoundTripSerialises
+import XotModel.Lemmas.RoundTripDeepEqual
 import XotModel.Props.C02
 
 namespace XotModel.Props
@@ -417,5 +418,36 @@ theorem C01_main_writable (env : Env) (t : Tree) (hr : Representable env t = tru
   exact ⟨s, ts, p, hs, h1, h2, h3, h4⟩
 
 example : namesWritable c01Env c01Doc [] = some true := by decide
+
+/-! ### `deep_equal` -/
+
+/-- **C01_main as the property words it**: the reparsed tree is `deep_equal` (Model/Compare.lean,
+    the crate's own comparison; canonical-form equality by C13_iff) to the original.  A corollary of
+    the literal equality `C01_main_identical`, which says more (declarations and prefixes too). -/
+theorem C01_main_deep_equal (env : Env) (t : Tree) (hr : Representable env t = true)
+    (lex : Str → List Token × Option Nat) (hlex : LexCanon false lex) (s : Str)
+    (hs : toXmlString env t [] = .ok s) :
+    ∃ ts p, lex s = (ts, none) ∧ build .document (strLen s) env ts none = .ok p ∧
+      deepEqual p.tree t = true := by
+  obtain ⟨ts, p, h1, h2, h3, _⟩ := C01_main_identical env t hr lex hlex s hs
+  refine ⟨ts, p, h1, h2, ?_⟩
+  have hfrag : RepresentableFragment env t = true := by
+    simp only [Representable, Bool.and_eq_true] at hr; exact hr.1
+  obtain ⟨_, _, hn, _⟩ := (representableFragment_iff env t).mp hfrag
+  have hv := valid_of_nodeOK t hn
+  rw [h3]
+  exact (deepEqual_iff_canon t t hv hv).mpr rfl
+
+theorem C01_main_fragment_deep_equal (env : Env) (t : Tree) (hr : RepresentableFragment env t = true)
+    (lex : Str → List Token × Option Nat) (hlex : LexCanon true lex) (s : Str)
+    (hs : toXmlString env t [] = .ok s) :
+    ∃ ts p, lex s = (ts, none) ∧ build .fragment (strLen s) env ts none = .ok p ∧
+      deepEqual p.tree t = true := by
+  obtain ⟨ts, p, h1, h2, h3, _⟩ := C01_main_fragment_identical env t hr lex hlex s hs
+  refine ⟨ts, p, h1, h2, ?_⟩
+  obtain ⟨_, _, hn, _⟩ := (representableFragment_iff env t).mp hr
+  have hv := valid_of_nodeOK t hn
+  rw [h3]
+  exact (deepEqual_iff_canon t t hv hv).mpr rfl
 
 end XotModel.Props
